@@ -139,7 +139,29 @@ def run(prog: Program, chk: Check):
     # ---- N no nondeterminism source reaches the output ---------------------------------------------------------
     N = chk.rule("C16-N", "every nondeterminism-source call is consumed only by logging / errors / file access / comparisons / bookkeeping / trim_root", 8,
                  "a timestamp, absolute path, pid or unordered iteration in emitted text breaks byte-identical recompilation")
-    PARSER_BOOKKEEPING = {"self.current_file", "self.root_path", "cwd", "msgdefs_path", "pkg_dir", "core_defs", "defs_path", "outpath", "prev_file", "alt_path", "imp"}
+    BOOKKEEPING_ATTRS = {"self.current_file", "self.root_path"}  # never emitted: see the constructor-argument rule below
+    BENIGN = ("log", "raise", "fs", "compare", "sanitised", "discarded")
+
+    def local_flow(f, name, depth=0, seen=()):
+        """contexts in which local `name` of f (holding a nondeterministic value) is consumed that are NOT benign"""
+        bad = []
+        if depth > 4 or name in seen:
+            return bad
+        for n in walk_local(f.node):
+            if isinstance(n, ast.Name) and n.id == name and isinstance(n.ctx, ast.Load):
+                cx = usage_context(n)
+                if cx in BENIGN or cx.endswith(".args"):
+                    continue
+                if cx.startswith("store:"):
+                    tgt = cx[6:]
+                    if tgt in BOOKKEEPING_ATTRS:
+                        continue
+                    if tgt.isidentifier():
+                        bad += local_flow(f, tgt, depth + 1, seen + (name,))
+                        continue
+                bad.append(f"{name} -> {cx}")
+        return bad
+
     nfound = 0
     for modname in EMITTING_MODS:
         m = prog.module(modname)
@@ -150,7 +172,12 @@ def run(prog: Program, chk: Check):
                     continue
                 nfound += 1
                 ctx = usage_context(c)
-                okc = ctx in ("log", "raise", "fs", "compare", "sanitised", "discarded") or (ctx.startswith("store:") and (ctx[6:] in PARSER_BOOKKEEPING or ctx.endswith(".args")))
+                okc = ctx in BENIGN or (ctx.startswith("store:") and (ctx[6:] in BOOKKEEPING_ATTRS or ctx.endswith(".args")))
+                if ctx.startswith("store:") and ctx[6:].isidentifier():
+                    esc = local_flow(f, ctx[6:])
+                    okc = not esc
+                    if esc:
+                        ctx = ctx + " and from there to " + "; ".join(esc[:3])
                 if ctx.startswith("ctor:") or ctx in ("return", "other"):
                     okc = False
                 # frozen exceptions (one named symbol each, with reason)
@@ -216,11 +243,14 @@ def run(prog: Program, chk: Check):
                  "a section missing from the combined YAML recompiles to different ids/hashes/layouts")
     pt = prog.func(PAR, "Parser.parse_text")
     nsec = 0
+    # the local holding the loaded document, whatever it is called
+    loads = [n.targets[0].id for n in walk_local(pt.node) if isinstance(n, ast.Assign) and len(n.targets) == 1 and isinstance(n.targets[0], ast.Name) and isinstance(n.value, ast.Call) and is_method_call(n.value, ("load", "safe_load"))]
+    dv = loads[0] if loads else "data"
     for st in pt.node.body:
         if not isinstance(st, ast.If):
             continue
         t = norm(st.test)
-        if not (t.startswith("data.get(") and t.endswith("is not None")):
+        if not (t.startswith(f"{dv}.get(") and t.endswith("is not None")):
             continue
         sec = st.test.left.args[0].value if isinstance(st.test, ast.Compare) and isinstance(st.test.left, ast.Call) and st.test.left.args and isinstance(st.test.left.args[0], ast.Constant) else None
         handled = [c for c in calls_in(st) if isinstance(c.func, ast.Attribute) and c.func.attr.startswith("handle_")]
@@ -230,7 +260,7 @@ def run(prog: Program, chk: Check):
         if sec == "imports":
             Y.ok(fkey(pt, f"section:{sec}"), where(pt, st), "imports are flattened by construction (the imported sections are merged)")
             continue
-        upd = [c for c in calls_in(st) if is_method_call(c, "update") and norm(c.func.value).replace('"', "'") == f"self.yaml_dict['{sec}']" and c.args and norm(c.args[0]).replace('"', "'") == f"data['{sec}']"]
+        upd = [c for c in calls_in(st) if is_method_call(c, "update") and norm(c.func.value).replace('"', "'") == f"self.yaml_dict['{sec}']" and c.args and norm(c.args[0]).replace('"', "'") == f"{dv}['{sec}']"]
         unconditional = bool(upd) and all(not any(isinstance(a, (ast.For, ast.If)) and a is not st for a in ancestors(c) if any(x is st for x in ancestors(a)) or a is st) for c in upd)
         Y.decide(bool(upd) and unconditional, fkey(pt, f"section:{sec}"), where(pt, st), f"yaml_dict['{sec}'] updated with data['{sec}']",
                  f"section `{sec}` is handled but not mirrored into self.yaml_dict['{sec}'] (lost from the combined YAML)")
@@ -266,7 +296,7 @@ def run(prog: Program, chk: Check):
                 from .. import flow
 
                 before = bool(pn) and bool(upd) and not flow.must_precede(ptg, pn, upd)
-                merged = pv is not None and f"{pv}['id']" in txt and f"data['message_defs']['{key}']['id']" in txt and before
+                merged = pv is not None and f"{pv}['id']" in txt and f"{dv}['message_defs']['{key}']['id']" in txt and before
         Y.decide(merged, fkey(pt, f"repeatable-key:{key}"), where(pt), f"repeatable key {key} is merged across files",
                  f"`{key}` may appear in message_defs of several files (it is exempt from duplicate detection) but yaml_dict['message_defs'].update() keeps only the last occurrence: the combined YAML loses the earlier reserved ids")
     yc = prog.func("pyrtma.compilers.yaml", "YAMLCompiler.generate")
